@@ -7,10 +7,10 @@ from vlib import Break
 GEN_PARTS = ["consts", "super", "announce"]
 
 
-def build_and_prove(ctx, module):
+def build_and_prove(ctx, module, extra_parts=()):
     with vlib.Lock():
         ok_go = ctx.phase(ctx.build_go)
-        ok_gen = ok_go and ctx.phase(ctx.regen, GEN_PARTS)
+        ok_gen = ok_go and ctx.phase(ctx.regen, GEN_PARTS + list(extra_parts))
         if ok_gen:
             if ctx.phase(ctx.prove, module) and ctx.phase(ctx.audit, module) and ctx.tier == "thorough":
                 ctx.phase(ctx.leanchecker, module)
